@@ -157,6 +157,28 @@ def run_case(case):
         backup = bool(case.get("backup"))
         args = ["-f", "t.vhd", "--fix", "-p", "1", "--style", case.get("style", "jcl")] + (["--backup"] if backup else [])
         kind = case["kind"]
+        if kind == "encoding":
+            # the same text once as UTF-8 and once as ISO-8859-1 with the first non-ASCII byte beyond 8 KiB: the
+            # fixed files (VSG writes UTF-8) must be identical, i.e. the complete fixed content, nothing mixed
+            header = "\n".join("-- revision history line %04d ....................................................." % i for i in range(140))
+            full = header + "\n-- author: Jos\xe9 Mu\xf1oz\n" + text + "\n"
+            res = {}
+            for enc in ("utf-8", "iso-8859-1"):
+                _reset(d, full.encode(enc), mode)
+                rc, so, se = _strace(d, args, backup=backup)
+                if "Traceback" in se:
+                    return {"status": "skip", "why": "undisturbed run raises (C19)"}
+                res[enc] = _state(d)
+            V = []
+            if res["utf-8"]["data"] == full.encode("utf-8"):
+                return {"status": "skip", "why": "nothing to fix"}
+            if res["iso-8859-1"]["data"] not in (res["utf-8"]["data"], full.encode("iso-8859-1")):
+                n1 = res["iso-8859-1"]["data"].count(b"\n")
+                n0 = res["utf-8"]["data"].count(b"\n")
+                V.append(("target-content-mixed:non-utf8-input", {"lines_written": n1, "lines_expected": n0}))
+            if res["iso-8859-1"]["mode"] != mode:
+                V.append(("target-mode-changed:non-utf8-input", {}))
+            return {"kind": kind, "violations": V, "runs": 2, "faults": ["encoding:iso-8859-1-late-byte"]}
         if kind == "unparsable":
             t2 = transforms.break_text(text, case["break"], case.get("k", 0))
             if t2 is None:
@@ -263,6 +285,8 @@ def _cases(tier, seed):
         cases.append({"kind": "python", "file": rng.choice(cand), "mode": modes[(i * 3 + 1) % len(modes)], "backup": i % 2 == 1, "rulefault": rng.sample(["whitespace_001", "process_018", "architecture_010", "signal_007", "comment_010", "port_012"], 3)})
     for i in range(4 if tier == "quick" else 30):
         cases.append({"kind": "unparsable", "file": rng.choice(cand), "mode": rng.choice(modes), "break": rng.choice(["truncate", "paren", "delete"]), "k": rng.randrange(3), "backup": i % 2 == 0})
+    for i in range(3 if tier == "quick" else 20):
+        cases.append({"kind": "encoding", "file": rng.choice(cand), "mode": modes[i % len(modes)], "backup": False})
     # split each syscall case into slices so the 16 workers share the enumeration
     out = []
     for c in cases:
@@ -283,7 +307,7 @@ def main(tier):
     cases = _cases(tier, seed)
     results = harness.run_cases("props.c16", cases, cpu=900, wall=2400)
     V = harness.Verdict(PROP)
-    stats = {"fault_runs": 0, "syscall_cases": 0, "python_cases": 0, "unparsable_cases": 0, "traces_checked": 0, "skipped": {}}
+    stats = {"fault_runs": 0, "syscall_cases": 0, "python_cases": 0, "unparsable_cases": 0, "encoding_cases": 0, "traces_checked": 0, "skipped": {}}
     faults = set()
     trace_shapes = set()
     for c, r in zip(cases, results):
